@@ -58,8 +58,14 @@ def main():
     caller = mkframe({"qual": "caller", "mod": "__main__", "file": "/x.py"})
     # what python -m uftrace does first: exec() is called from the frame that becomes `first_frame`
     U.trace(first, "c_call", exec)
+    fresh = case.get("fresh_objects")
     for kind, idx in case["events"]:
         o = objs[idx]
+        if fresh and case["funcs"][idx]["t"] == "py":
+            # code objects die and are born all the time (exec/compile, modules imported and dropped): a new
+            # frame and code object per event, released right after it, so that different functions get the
+            # same addresses one after the other.  The identity of a function is its name, not its address.
+            o = mkframe(case["funcs"][idx])
         if case["funcs"][idx]["t"] == "py":
             if kind in ("call", "return"):
                 U.trace(o, kind, None)
@@ -67,6 +73,7 @@ def main():
                 U.trace(caller, kind, o)       # not a builtin: ignored by get_c_funcname
         else:
             U.trace(caller, kind, o)
+        o = None
     # events of the first frame stay invisible, whatever they are
     U.trace(first, "c_return", exec)
     U.trace(first, "c_call", sys.setprofile)
